@@ -37,6 +37,9 @@ type throwEvent struct {
 	awaitingActions []chan IAction
 	once            sync.Once
 	satisfier       *logic.ThrowEventSatisfier
+	// running: the run loop drains mch; stopped is closed when it returns
+	running atomic.Bool
+	stopped chan struct{}
 }
 
 func newThrowEvent(wr *wiring, element *schema.ThrowEvent, idGenerator id.IGenerator) (evt *throwEvent, err error) {
@@ -48,6 +51,7 @@ func newThrowEvent(wr *wiring, element *schema.ThrowEvent, idGenerator id.IGener
 		activated:       atomic.Bool{},
 		awaitingActions: make([]chan IAction, 0),
 		satisfier:       logic.NewThrowEventSatisfier(element, wr.eventDefinitionInstanceBuilder),
+		stopped:         make(chan struct{}),
 	}
 
 	err = evt.eventEgress.RegisterEventConsumer(evt)
@@ -59,6 +63,10 @@ func newThrowEvent(wr *wiring, element *schema.ThrowEvent, idGenerator id.IGener
 
 func (evt *throwEvent) run(ctx context.Context, sender tracing.ISenderHandle) {
 	defer sender.Done()
+	defer func() {
+		evt.running.Store(false)
+		close(evt.stopped)
+	}()
 
 	for {
 		select {
@@ -88,7 +96,21 @@ func (evt *throwEvent) run(ctx context.Context, sender tracing.ISenderHandle) {
 }
 
 func (evt *throwEvent) ConsumeEvent(ev event.IEvent) (result event.ConsumptionResult, err error) {
-	evt.mch <- eventMessage{event: ev}
+	// Delivering an event never blocks: while the run loop is not running (no
+	// token has reached the node yet, or it has gone with the instance's
+	// context) nobody drains the inbox, so the event is queued only if there
+	// is room.
+	if evt.running.Load() {
+		select {
+		case evt.mch <- eventMessage{event: ev}:
+		case <-evt.stopped:
+		}
+	} else {
+		select {
+		case evt.mch <- eventMessage{event: ev}:
+		default:
+		}
+	}
 	result = event.Consumed
 	return
 }
@@ -102,6 +124,7 @@ func (evt *throwEvent) flow(ctx context.Context) {
 func (evt *throwEvent) Trigger(ctx context.Context) {
 	evt.once.Do(func() {
 		sender := evt.tracer.RegisterSender()
+		evt.running.Store(true)
 		go evt.run(ctx, sender)
 	})
 
@@ -111,6 +134,7 @@ func (evt *throwEvent) Trigger(ctx context.Context) {
 func (evt *throwEvent) NextAction(ctx context.Context, flow Flow) chan IAction {
 	evt.once.Do(func() {
 		sender := evt.tracer.RegisterSender()
+		evt.running.Store(true)
 		go evt.run(ctx, sender)
 	})
 
